@@ -393,6 +393,7 @@ func (gen *Generator) GenerateShortCircuit(or bool, args []Sexp) error {
 
 	for i := size - 2; i >= 0; i-- {
 		subgen = gen.NewSubGenerator()
+		subgen.scopes = gen.scopes
 		subgen.Generate(args[i])
 		subgen.AddInstruction(DupInstr(0))
 		subgen.AddInstruction(BranchInstr{or, len(instructions) + 2})
@@ -422,6 +423,7 @@ func (gen *Generator) GenerateCond(args []Sexp) error {
 	// we generate the cond bottom up, so i counts down.
 	for i := len(args)/2 - 1; i >= 0; i-- {
 		subgen.Reset()
+		subgen.scopes = gen.scopes
 		err := subgen.Generate(args[2*i])
 		if err != nil {
 			return err
